@@ -351,7 +351,9 @@ def coerce_arguments(s, argdefs, given, variables):
 # ------------------------------------------------------------------ generators of valid values
 
 STRINGS = ["", "a", "hello world", "x\"y", "back\\slash", "line\nbreak", "tab\t", "é", "日本", "😀",
-           "1", "true", "null", "{}", "#nocomment", "$v", "a,b", "é́", "  pad  "]
+           "1", "true", "null", "{}", "#nocomment", "$v", "a,b", "é́", "  pad  ",
+           # a backslash directly followed by a character that is an escape letter, a quote or another backslash
+           "C:\\new\\table.txt", "q\\\"", "\\\\b", "tail\\"]
 INTS = [0, 1, -1, 2, 7, 42, -100, INT_MAX, INT_MIN, 1000000]
 FLOATS = [0.0, 1.5, -2.25, 1e10, 3.0, 1e-7, 123456.789, -0.5]
 
